@@ -27,6 +27,22 @@ def optS : Option Nat → String
   | none => "0"
   | some n => toString n
 
+def lcg (x : Nat) : Nat := (x * 1103515245 + 12345) % 2147483648
+
+/-- LCG keys of the `bigsort` operation -/
+def bigKeys : Nat → Nat → Nat → Array Int → Array Int
+  | 0, _, _, acc => acc
+  | n + 1, nkeys, x, acc =>
+    let x' := lcg x
+    bigKeys n nkeys x' (acc.push (Int.ofNat ((x' / 256) % nkeys)))
+
+/-- `bigsort`: the sequence-level merge sort of the model (`msort`, to which the
+link-level sort is proved equal) on `n` elements; checksum of the final order -/
+def bigSortCk (n nkeys seed : Nat) : Nat :=
+  let keys := bigKeys n nkeys (seed % 2147483648) #[]
+  let ys := Cstl.SList.msort (fun a => keys[a]!) n (List.range n)
+  ys.foldl (fun ck i => (ck * 1000003 + (i + 1) % 2147483647) % 2147483647) 7
+
 def dstep (s : DState) (ws : List String) : DState × String :=
   let bad := (s, "STOP bad-op")
   let getL (a : String) : Option (Nat × Hd) := do
@@ -78,6 +94,11 @@ def dstep (s : DState) (ws : List String) : DState × String :=
       | none => (s, "STOP hang")
       | some m' => upd1 i (m', hd) "ok"
     | _ => bad
+  | ["bigsort", l, n, nk, sd] =>
+    match getL l, n.toNat?, nk.toNat?, parseNat? sd with
+    | some (_, hd), some n, some nk, some sd =>
+      if hd.size ≠ 0 || n > 2000000 || nk = 0 then bad else fin s s!"ok ck={bigSortCk n nk sd}"
+    | _, _, _, _ => bad
   | ["sort", l] =>
     match getL l with
     | some (i, hd) => upd1 i (sort s.m hd s.key) "ok"
